@@ -435,6 +435,51 @@ def declared_script_section(ctx):
                     ctx.spec_failure(dict(case, script=t, pair=[a, c]), "under %s the pair (%s, %s) of script-neutral glyphs is adjusted by %r, the UFO says %r" % (t, a, c, got, v))
 
 
+def language_section(ctx):
+    """language systems: a script declared with several languages, the default one first, last, in the middle or not at all;
+    under EVERY language system the compiled GPOS holds for the script, the pair gets the UFO value (both writers)"""
+    import ufo2ft
+    from fontTools.ttLib import TTFont
+    from ufo2ft.featureWriters.kernFeatureWriter import KernFeatureWriter
+    from ufo2ft.featureWriters.kernFeatureWriter2 import KernFeatureWriter as KernFeatureWriter2
+    from ufo2ft.featureWriters import MarkFeatureWriter, GdefFeatureWriter, CursFeatureWriter
+    tri = [[(Fr(0), Fr(0), "line"), (Fr(50), Fr(0), "line"), (Fr(50), Fr(50), "line")]]
+    ORDERS = [["latn dflt", "latn TRK"], ["latn TRK", "latn dflt"], ["latn TRK", "latn AZE", "latn dflt"], ["latn AZE", "latn dflt", "latn TRK"],
+              ["latn TRK"], ["latn dflt", "grek ELL", "grek dflt", "latn TRK"]]
+    for i in range(ctx.budget(2 * len(ORDERS), 4 * len(ORDERS))):
+        order = ORDERS[i % len(ORDERS)]
+        wname, wcls = [("kernFeatureWriter", KernFeatureWriter), ("kernFeatureWriter2", KernFeatureWriter2)][(i // len(ORDERS)) % 2]
+        lib = ["ufoLib2", "defcon"][(i + i // (2 * len(ORDERS))) % 2]
+        glyphs = [{"name": n, "unicodes": [u], "width": 500, "contours": tri, "components": [], "anchors": [("top", Fr(250), Fr(600))] if a else []}
+                  for n, u, a in [("A", 0x41, True), ("V", 0x56, False), ("period", 0x2E, False), ("alpha", 0x3B1, True), ("beta", 0x3B2, False)]]
+        glyphs.append({"name": "acutecomb", "unicodes": [0x301], "width": 0, "contours": tri, "components": [], "anchors": [("_top", Fr(0), Fr(480))]})
+        names = [g["name"] for g in glyphs]
+        kerning = {("A", "V"): Fr(-40), ("period", "A"): Fr(10), ("V", "period"): Fr(-25), ("alpha", "beta"): Fr(-31), ("period", "period"): Fr(7)}
+        desc = {"glyphs": glyphs, "glyphOrder": names, "groups": {}, "kerning": kerning,
+                "features": "languagesystem DFLT dflt;\n" + "".join("languagesystem %s;\n" % o for o in order),
+                "lib": {"public.openTypeCategories": dict({n: "base" for n in names}, acutecomb="mark")}}
+        case = {"font": jsonable({k: (v if k != "kerning" else {"%s|%s" % kk: vv for kk, vv in v.items()}) for k, v in desc.items()}),
+                "lib": lib, "writer": wname, "languagesystems": order}
+        ctx.count(); ctx.klass("language systems %r/%s" % (order, wname)); ctx.nontriv(("lang", i, ctx.scale))
+        try:
+            tt = ufo2ft.compileTTF(build_font(desc, lib), useProductionNames=False,
+                                   featureWriters=[CursFeatureWriter, wcls, MarkFeatureWriter, GdefFeatureWriter])
+            b = io.BytesIO(); tt.save(b); lay = Layout(TTFont(io.BytesIO(b.getvalue())))
+        except Exception as e:
+            ctx.spec_failure(case, "compileTTF raised %s: %s\n%s" % (type(e).__name__, e, traceback.format_exc()[-1000:]))
+            continue
+        members = {"latn": {"A", "V", "period"}, "grek": {"alpha", "beta", "period"}, "DFLT": {"period"}}
+        for t, langs in lay.scripts().items():
+            for lang in langs:
+                lk = lay.lookups_for(t, {"kern", "dist"}, lang)
+                for (a, c), v in kerning.items():
+                    if a in members.get(t, ()) and c in members.get(t, ()):
+                        got = lay.pair_adjust(lk, a, c)[0]
+                        if got != v:
+                            ctx.spec_failure(dict(case, script=t, language=lang, pair=[a, c]),
+                                             "under %s/%s the pair (%s, %s) is adjusted by %r, the UFO says %r" % (t, lang, a, c, got, v))
+
+
 F41_SIG = "mark-known-only-from-anchors-kerned"
 
 
@@ -484,6 +529,7 @@ def explore(ctx):
     merge_scripts_section(ctx)
     mark_kern_section(ctx)
     declared_script_section(ctx)
+    language_section(ctx)
     variable_kern_section(ctx)
     # the bidi classification of glyphs (cmap + GSUB closure with the neutral glyphs taken out + designspace-rule
     # substitutes) is util.classifyGlyphs with the writer's bidi type: the same Gallina model as C18's, other property
